@@ -1,20 +1,22 @@
 ---------------------------- MODULE MC_Instancer ----------------------------
 (* (M) for Instancer: on whole small lattices the OPERATIONAL instancing of the specification
-   (per-axis tent rebasing, scaling, merging of equal regions, default-delta extraction, avar
-   and condition-range renormalisation, rounding) satisfies the declarative CONTRACT:
-     PreservedExact   before rounding, at every eighth-lattice point of the new space, exactly;
+   (limit normalisation, per-axis tent rebasing, scaling, merging of equal regions, default-delta
+   folding, avar and condition-range renormalisation, rounding) satisfies the declarative CONTRACT:
+     PreservedExact   before rounding, at every half-step point of the new space, exactly;
      Preserved        after rounding, within the derived budget;
-     AxesCorrect, Static, FeatureVars; store-level and font-level formulations agree.
-   Each case is also exported (<<"GEN", ...>>) and replayed into the real instancer.
+     AxesCorrect, Static, TentsInRange, FeatureVars (except where the named deviation D-FV1 of
+     the code fires: those cases are printed as BAD and must be reproduced by the real code).
+   Every case is exported (<<"GEN", json>>) and replayed into the real instancer; the operational
+   steps that fired are exported as <<"COV", ...>> (non-vacuity evidence).
 
    FAMILY  "one"   1 axis,  tents / limits on the 1/D lattice, 1..NV delta sets, 2 items
-           "two"   2 axes,  same, limits of the second axis from a CONSTANT subset when QUICK
+           "two"   2 axes,  same; limits of the second axis from the CONSTANT Lim2
            "avar"  1 axis with a segment map from Maps, limits in user space
-           "fv"    feature-variation records (condition boxes) on 1..2 axes
+           "fv"    2 axes, two feature-variation records (condition boxes from Conds)
    Lattice encoding: a coordinate k stands for k/D; user axes are <<-D*dn, 0, D*dp>> so that
    user coordinate U(k) = k*dn (k < 0), k*dp (k >= 0) normalises to k/D.                     *)
 EXTENDS Instancer, SequencesExt, Json, TLC
-CONSTANTS FAMILY, D, NV, DeltaVecs, Dists, Lim2, MapIds
+CONSTANTS FAMILY, D, NV, DeltaVecs, Dists, Lim2, MapIds, Conds
 VARIABLES phase, cs, verdict
 vars == <<phase, cs, verdict>>
 
@@ -32,13 +34,11 @@ U(k, dn, dp) == IF k < 0 THEN k * dn ELSE k * dp
 UserAxis(d) == <<RInt(-D * d[1]), RZero, RInt(D * d[2])>>
 UserLim(l) == <<RInt(U(l[1], l[4], l[5])), RInt(U(l[2], l[4], l[5])), RInt(U(l[3], l[4], l[5]))>>
 NLim(l) == <<Q(l[1]), Q(l[2]), Q(l[3]), RInt(D * l[4]), RInt(D * l[5])>>
-(* eighth-lattice points of one axis inside a limit, as user coordinates / old normalised *)
+(* half-step points of one axis inside a limit (eighth lattice for D = 4), as user coordinates *)
 UserPts(l) == {Rat(U(k, l[4], l[5]), 2) : k \in (2 * l[1])..(2 * l[3])}
-NormPts(l) == {Rat(k, 2 * D) : k \in (2 * l[1])..(2 * l[3])}
-(* all locations: sequences over the axes *)
-Locs(ptsOf(_), lims) ==
-  IF Len(lims) = 1 THEN {<<x>> : x \in ptsOf(lims[1])}
-  ELSE {<<x, y>> : x \in ptsOf(lims[1]), y \in ptsOf(lims[2])}
+Locs(lims) ==
+  IF Len(lims) = 1 THEN {<<x>> : x \in UserPts(lims[1])}
+  ELSE {<<x, y>> : x \in UserPts(lims[1]), y \in UserPts(lims[2])}
 
 Maps == << <<>>,
            << <<-D, -D>>, <<0, 0>>, <<2, 1>>, <<D, D>> >>,
@@ -48,51 +48,89 @@ MapOf(i) == TLCEval([k \in 1..Len(Maps[i]) |-> <<Q(Maps[i][k][1]), Q(Maps[i][k][
 
 (* ---- the case -> abstract font ------------------------------------------------------------ *)
 NAxes(c) == Len(c.lims)
-NItems(c) == Len(c.vars[1][2])
+NItems(c) == IF Len(c.vars) = 0 THEN 1 ELSE Len(c.vars[1][2])
 RegOf(r) == TLCEval([a \in 1..Len(r) |-> T(r[a])])
-SharedVars(c) == TLCEval([k \in 1..Len(c.vars) |-> <<RegOf(c.vars[k][1]), TLCEval([j \in 1..Len(c.vars[k][2]) |-> RInt(c.vars[k][2][j])])>>])
-ItemOf(c, j) == [base |-> RInt(10 * j), vars |-> TLCEval([k \in 1..Len(c.vars) |-> <<RegOf(c.vars[k][1]), RInt(c.vars[k][2][j])>>])]
-BoxOf(b) == TLCEval([a \in 1..Len(b) |-> IF Len(b[a]) = 0 THEN <<>> ELSE <<Q(b[a][1]), Q(b[a][2])>>])
+IntSeq(s) == TLCEval([j \in 1..Len(s) |-> RInt(s[j])])
 FontOf(c) ==
   [axes |-> TLCEval([a \in 1..NAxes(c) |-> UserAxis(<<c.lims[a][4], c.lims[a][5]>>)]),
    avar |-> TLCEval([a \in 1..NAxes(c) |-> IF a = 1 THEN MapOf(c.map) ELSE <<>>]),
-   items |-> TLCEval([j \in 1..NItems(c) |-> ItemOf(c, j)]),
-   fvs |-> TLCEval([r \in 1..Len(c.fvs) |-> [box |-> BoxOf(c.fvs[r]), sub |-> r]]),
+   bases |-> TLCEval([j \in 1..NItems(c) |-> RInt(10 * j)]),
+   vars |-> TLCEval([k \in 1..Len(c.vars) |-> <<RegOf(c.vars[k][1]), IntSeq(c.vars[k][2])>>]),
+   fvs |-> TLCEval([r \in 1..Len(c.fvs) |->
+             [box |-> TLCEval([a \in 1..Len(c.fvs[r]) |-> IF Len(c.fvs[r][a]) = 0 THEN <<>> ELSE <<Q(c.fvs[r][a][1]), Q(c.fvs[r][a][2])>>]),
+              sub |-> r]]),
    defsub |-> 0]
 ULims(c) == TLCEval([a \in 1..NAxes(c) |-> UserLim(c.lims[a])])
 
 (* ---- verdict ------------------------------------------------------------------------------ *)
-Worst(vs) == IF "differs" \in vs THEN "differs" ELSE IF "overflow" \in vs THEN "overflow" ELSE "ok"
+(* at one location: <<exact verdict, rounded verdict, feature variations agree>> *)
+AtLoc(font, ulims, fx, fr, u) ==
+  LET want == Values(font, u)
+      u2 == ProjLoc(ulims, u)
+      n2 == NormLoc(fx, u2)
+      sx == Scalars(fx.vars, n2)
+      gx == ValuesSc(fx, sx)
+      gr == ValuesSc(fr, sx)                 \* fr has the regions of fx
+      bud == BudgetSc(sx, 1)
+      I == 1..Len(font.bases)
+  IN << Worst({Within(gx[i], want[i], RZero) : i \in I}),
+        Worst({Within(gr[i], want[i], bud) : i \in I}),
+        ActiveSubN(fr, n2) = ActiveSub(font, u) >>
 Verdict(c) ==
   LET font == FontOf(c)
       ulims == ULims(c)
-      fx == Instantiate(font, ulims, FALSE)
-      fr == Instantiate(font, ulims, TRUE)
-      ulocs == Locs(UserPts, c.lims)
-      items == 1..NItems(c)
-      exact == Worst({PreservedAt(font, ulims, fx, i, u, 0, RZero) : i \in items, u \in ulocs})
-      rounded == Worst({PreservedAt(font, ulims, fr, i, u, 1, RZero) : i \in items, u \in ulocs})
-      (* store level (only without a segment map: there the normalised limits are the lattice ones) *)
+      fx == InstantiateExact(font, ulims)
+      fr == RoundFont(fx)
+      res == {AtLoc(font, ulims, fx, fr, u) : u \in Locs(c.lims)}
+      exact == Worst({r[1] : r \in res})
+      rounded == Worst({r[2] : r \in res})
       nlims == TLCEval([a \in 1..NAxes(c) |-> NLim(c.lims[a])])
-      st == InstantiateVarsExact(SharedVars(c), nlims, NItems(c))
-      str == RoundVars(st[2])
-      nlocs == Locs(NormPts, c.lims)
-      sv(vs, j) == TLCEval([k \in 1..Len(vs) |-> <<vs[k][1], vs[k][2][j]>>])
-      storeX == Worst({StorePreservedAt(ItemOf(c, j).vars, nlims, st[1][j], sv(st[2], j), x, 0, 0) : j \in items, x \in nlocs})
-      storeR == Worst({StorePreservedAt(ItemOf(c, j).vars, nlims, st[1][j], sv(str, j), x, 0, 1) : j \in items, x \in nlocs})
   IN IF ~WellFormedLimits(font, ulims) THEN "malformed-limits"
      ELSE IF ~AxesCorrect(ulims, fr) THEN "AxesCorrect"
      ELSE IF ~Static(ulims, fr) THEN "Static"
+     ELSE IF c.map = 1 /\ NormLimits(font, ulims) # nlims THEN "NormLimits"
      ELSE IF exact # "ok" THEN "PreservedExact:" \o exact
      ELSE IF rounded # "ok" THEN "Preserved:" \o rounded
-     ELSE IF c.map = 1 /\ NormLimits(font, ulims) # nlims THEN "NormLimits"
-     ELSE IF c.map = 1 /\ storeX # "ok" THEN "StoreExact:" \o storeX
-     ELSE IF c.map = 1 /\ storeR # "ok" THEN "StoreRounded:" \o storeR
-     ELSE IF \E i \in items : \E k \in 1..Len(fr.items[i].vars) : \E a \in 1..Len(fr.axes) :
-               LET t == fr.items[i].vars[k][1][a] IN ~(RLe(RInt(-1), t[1]) /\ RLe(t[3], ROne))
+     ELSE IF \E k \in 1..Len(fr.vars) : \E a \in 1..Len(fr.axes) :
+               LET t == fr.vars[k][1][a] IN ~(RLe(RInt(-1), t[1]) /\ RLe(t[3], ROne))
           THEN "TentsInRange"
-     ELSE IF \E u \in ulocs : ~FeatureVarsAt(font, ulims, fr, u) THEN "FeatureVars"
+     ELSE IF \E r \in res : ~r[3]
+          THEN (IF FvDeviation(font.fvs, NormLimits(font, ulims)) THEN "FeatureVars:applied-record-without-remaining-conditions"
+                ELSE "FeatureVars")
      ELSE "ok"
+
+(* which operational steps the case exercises (non-vacuity evidence) *)
+Cov(c) ==
+  LET font == FontOf(c)
+      ulims == ULims(c)
+      nlims == NormLimits(font, ulims)
+      lim == LimitAxesFrom(font.vars, nlims, 1)
+      mer == Merge(lim)
+      ex == InstantiateVarsExact(font.vars, nlims, Len(font.bases))
+      fv == FvLoop(font, nlims, 1, [recs |-> <<>>, applied |-> FALSE, defsub |-> font.defsub, universal |-> FALSE])
+      L == c.lims
+  IN (IF \E a \in 1..Len(L) : L[a][1] = L[a][3] /\ L[a][1] # 0 THEN {"pin"} ELSE {})
+     \cup (IF \E a \in 1..Len(L) : L[a][1] = L[a][3] /\ L[a][1] = 0 THEN {"drop"} ELSE {})
+     \cup (IF \E a \in 1..Len(L) : L[a][1] < L[a][3] /\ L[a][2] = 0 /\ <<L[a][1], L[a][3]>> # <<-D, D>> THEN {"range"} ELSE {})
+     \cup (IF \E a \in 1..Len(L) : L[a][1] < L[a][3] /\ L[a][2] # 0 THEN {"moved-default"} ELSE {})
+     \cup (IF \E a \in 1..Len(L) : L[a][1] < 0 /\ 0 < L[a][2] THEN {"default-crosses-old-default"} ELSE {})
+     \cup (IF \E a \in 1..Len(L) : L[a][4] # L[a][5] THEN {"asymmetric-axis"} ELSE {})
+     \cup (IF Len(lim) > Len(font.vars) THEN {"split"} ELSE {})
+     \cup (IF Len(lim) < Len(font.vars) \/ \E k \in 1..Len(font.vars) : \E a \in 1..Len(L) :
+                ~RIsZero(font.vars[k][1][a][2]) /\ Len(RebaseTent(font.vars[k][1][a], nlims[a])) = 0 THEN {"vanish"} ELSE {})
+     \cup (IF Len(mer) < Len(lim) THEN {"merge"} ELSE {})
+     \cup (IF \E j \in 1..Len(ex[1]) : ~RIsZero(ex[1][j]) THEN {"default-fold"} ELSE {})
+     \cup (IF \E k \in 1..Len(ex[2]) : \E j \in 1..Len(ex[2][k][2]) : ~RIsInt(ex[2][k][2][j]) THEN {"round-delta"} ELSE {})
+     \cup (IF \E j \in 1..Len(ex[1]) : ~RIsInt(ex[1][j]) THEN {"round-base"} ELSE {})
+     \cup (IF Len(ex[2]) > 0 THEN {"still-variable"} ELSE {})
+     \cup (IF c.map # 1 /\ ~AllPinned(ulims) /\ Len(InstantiateExact(font, ulims).avar[1]) > 3 THEN {"avar-knot-kept"} ELSE {})
+     \cup (IF c.map # 1 /\ ~AllPinned(ulims) /\ Len(InstantiateExact(font, ulims).avar[1]) < Len(font.avar[1]) THEN {"avar-knot-dropped"} ELSE {})
+     \cup (IF Len(c.fvs) > 0 /\ fv.applied THEN {"fv-applied"} ELSE {})
+     \cup (IF Len(c.fvs) > 0 /\ fv.universal THEN {"fv-universal"} ELSE {})
+     \cup (IF Len(c.fvs) > 0 /\ fv.applied /\ Len(fv.recs) > 0 /\ ~fv.universal THEN {"fv-catchall"} ELSE {})
+     \cup (IF Len(c.fvs) > 0 /\ Len(fv.recs) < Len(c.fvs) THEN {"fv-record-removed"} ELSE {})
+     \cup (IF Len(c.fvs) > 0 /\ Len(fv.recs) > 0 /\ \E q \in 1..Len(fv.recs) : \E r \in 1..Len(font.fvs) :
+               fv.recs[q].sub = r /\ fv.recs[q].box # ProjRegion(font.fvs[r].box, NKept(nlims)) THEN {"fv-condition-renormalised"} ELSE {})
 
 (* ---- constant values named by the configurations (cfg files cannot write tuples) -------------- *)
 DV_std == << {<<3, -4>>}, {<<-2, 1>>}, {<<4, -1>>} >>
@@ -104,7 +142,15 @@ Lim2_none == {}
 (* second-axis limits of the quick two-axis run: untouched, pinned off-default, range with moved
    default crossing the old default, L4-style partial range on one side *)
 Lim2_quick == {<<-D, 0, D, 1, 1>>, <<D \div 2, D \div 2, D \div 2, 1, 1>>, <<-(D \div 2), D \div 2, D, 1, 2>>, <<0, 0, D \div 2, 1, 1>>}
-Lim2_all == {<<l[1], l[2], l[3], d[1], d[2]>> : l \in {t \in ((-D)..D) \X ((-D)..D) \X ((-D)..D) : t[1] <= t[2] /\ t[2] <= t[3]}, d \in Dists_two}
+Lim2_all == {<<l[1], l[2], l[3], d[1], d[2]>> : l \in LimSet, d \in Dists_two}
+Lim2_fv == {<<-D, 0, D, 1, 1>>, <<D \div 2, D \div 2, D \div 2, 1, 1>>}
+Ranges == {r \in ((-D)..D) \X ((-D)..D) : r[1] <= r[2]}
+Conds_all == Ranges \cup {<<>>}
+(* condition ranges of the quick feature-variation run: none, whole axis, upper part, lower end,
+   around the default, a single point *)
+Conds_std == {<<>>, <<-D, D>>, <<D \div 2, D>>, <<-D, -(D \div 2)>>, <<0, D \div 2>>, <<D, D>>}
+Conds_mid == {<<>>, <<-D, D>>, <<D \div 2, D>>, <<-D, -(D \div 2)>>, <<0, D \div 2>>}
+Conds_quick == {<<>>, <<-D, D>>, <<D \div 2, D>>, <<-(D \div 2), 0>>}
 
 (* ---- generators ---------------------------------------------------------------------------- *)
 Case(v, l, m, f) == [vars |-> v, lims |-> l, map |-> m, fvs |-> f]
@@ -129,24 +175,26 @@ InitTwo ==
 InitAvar ==
   \E l \in LimSet : \E d \in Dists : \E m \in MapIds : \E i \in 1..NT : \E dv \in DV(1) :
     \/ cs = Case(<< <<<<TentSeq[i]>>, dv>> >>, <<Lim5(l, d)>>, m, <<>>)
-    \/ \E j \in (i + 1)..NT : \E dw \in DV(2) : j % 3 = i % 3 /\
-         cs = Case(<< <<<<TentSeq[i]>>, dv>>, <<<<TentSeq[j]>>, dw>> >>, <<Lim5(l, d)>>, m, <<>>)
-(* feature variations: condition ranges on the lattice, <<>> = no condition *)
-Ranges == {r \in ((-D)..D) \X ((-D)..D) : r[1] <= r[2]}
-CondSet == Ranges \cup {<<>>}
+    \/ /\ NV >= 2
+       /\ \E j \in (i + 1)..NT : \E dw \in DV(2) : j % 3 = i % 3 /\
+            cs = Case(<< <<<<TentSeq[i]>>, dv>>, <<<<TentSeq[j]>>, dw>> >>, <<Lim5(l, d)>>, m, <<>>)
+(* feature variations: two records, condition ranges on the lattice, <<>> = no condition *)
 InitFv ==
   \E l1 \in LimSet : \E d1 \in Dists : \E l2 \in Lim2 :
-    \E a1 \in CondSet : \E a2 \in CondSet : \E b1 \in CondSet : \E b2 \in CondSet : \E dv \in DV(1) :
-      cs = Case(<< <<<<NoT, NoT>>, dv>> >>, <<Lim5(l1, d1), l2>>, 1, << <<a1, a2>>, <<b1, b2>> >>)
+    \E a1 \in Conds : \E a2 \in Conds : \E b1 \in Conds : \E b2 \in Conds :
+      cs = Case(<<>>, <<Lim5(l1, d1), l2>>, 1, << <<a1, a2>>, <<b1, b2>> >>)
 
-Init == /\ phase = "gen" /\ verdict = "pending"
+Init == /\ phase = "gen" /\ verdict = <<"pending", {}>>
         /\ IF FAMILY = "one" THEN InitOne
            ELSE IF FAMILY = "two" THEN InitTwo
            ELSE IF FAMILY = "avar" THEN InitAvar
            ELSE InitFv
 Next == /\ phase = "gen" /\ phase' = "judged"
-        /\ verdict' = Verdict(cs) /\ UNCHANGED cs
-Sound == verdict \in {"pending", "ok"}
-Emit == phase = "gen" => PrintT(<<"GEN", ToJson(cs)>>)
-Bad == (phase = "judged" /\ verdict # "ok") => PrintT(<<"BAD", verdict, ToJson(cs)>>)
+        /\ verdict' = <<Verdict(cs), Cov(cs)>> /\ UNCHANGED cs
+(* D-FV1 cases are reported (BAD) and re-judged on the real code by the harness; anything else
+   that is not "ok" is a defect of the specification and stops TLC *)
+Sound == verdict[1] \in {"pending", "ok", "FeatureVars:applied-record-without-remaining-conditions"}
+Emit == phase = "gen" => PrintT(<<"GEN", ToJson(cs), ToJson(Maps[cs.map])>>)
+Bad == (phase = "judged" /\ verdict[1] # "ok") => PrintT(<<"BAD", verdict[1], ToJson(cs)>>)
+CovOut == phase = "judged" => PrintT(<<"COV", SetToSeq(verdict[2])>>)
 =============================================================================
